@@ -31,7 +31,7 @@ def lu_scenario(g, sid, ty, n, m=None, fn="gssv", fam_opts=None, A=None, style=N
     colperm = r.choice(ORDERINGS) if colperm is None else colperm
     if m != n and colperm in (MMD_AT_PLUS_A,):
         colperm = COLAMD
-    u = r.choice([1.0, 1.0, 0.5, 0.25, 0.125, 0.0625]) if u is None else u
+    u = r.choice([1.0, 1.0, 0.5, 0.25, 0.125, 0.0625, 0.0]) if u is None else u
     sym = (1 if r.random() < 0.2 else 0) if sym is None else sym
     tune = tune or g.tune()
     lines = ["tune " + " ".join(map(str, tune))]
@@ -167,6 +167,37 @@ def fam_singular(g, prop, count, types, fn="gssv", nmax=7):
             mode = g.r.choice(modes)
             A = singular_matrix(g, n, is_cplx(ty), mode)
             lst.append(lu_scenario(g, "%s-sing%s-%05d-%s" % (prop, mode, i, ty), ty, n, fn=fn, A=A))
+        out[ty] = lst
+    return out
+
+
+def fam_reusezero(g, prop, count, types):
+    """refactorization with the row permutation of an earlier call (SamePattern_SameRowPerm) after the caller changed
+    values so that a former pivot is exactly zero (stored zero in the first column, or exact cancellation), with
+    thresholds down to 0: the old pivot must be abandoned, or the column reported singular when no candidate is left"""
+    out = {}
+    for ty, k in split_types(count, types).items():
+        cplx = is_cplx(ty)
+        lst = []
+        for i in range(k):
+            r = g.r
+            n = r.randint(2, 6)
+            A, _ = g.matrix(n, n, cplx, style="pow2", kind=r.choice(["dense", "sparse", "band"]))
+            for d in range(n):
+                A.setdefault((d, d), g.value("pow2", cplx))
+            fmt = r.choice(["NC", "NC", "NR"])
+            u = r.choice([0.0, 0.0, 0.0, 0.125, 1.0])
+            o = {"default": 0, "ColPerm": r.choice([NATURAL, NATURAL, COLAMD, MMD_ATA]), "Equil": 0, "u": float(u), "Trans": r.choice([0, 1]), "IterRefine": 0, "Cond": 0, "PivotGrowth": r.choice([0, 1])}
+            B = g.rhs_for(A, n, 1, cplx)
+            lines = ["tune " + " ".join(map(str, g.tune()))] + g.mat_lines(A, n, n, fmt, cplx) + g.rhs_lines(B, n, 1, n, cplx) + opt_lines(o)
+            lines += gssvx_block(work=None, events=0) + ["requireok"]
+            for rep in range(r.choice([1, 1, 2])):
+                lines.append("mutate zeropiv %d" % (0 if r.random() < 0.6 else r.randint(0, n - 1)))
+                if r.random() < 0.3:
+                    lines.append("mutate zeropiv %d" % r.randint(0, n - 1))
+                lines += opt_lines({"Fact": 2}) + g.rhs_lines(B, n, 1, n, cplx) + gssvx_block(work=None, events=0)
+            lines += ["destroy all", "ledger"]
+            lst.append({"id": "%s-reusezero-%05d-%s" % (prop, i, ty), "lines": lines, "n": n})
         out[ty] = lst
     return out
 
@@ -352,7 +383,7 @@ def scaled_matrix(g, n, cplx, spread):
 
 def gssvx_opts(g, fn="gssvx", **over):
     r = g.r
-    o = {"default": 0, "ColPerm": r.choice(ORDERINGS[:4]), "u": float(r.choice([1.0, 1.0, 0.5, 0.125])), "Sym": 1 if r.random() < 0.15 else 0,
+    o = {"default": 0, "ColPerm": r.choice(ORDERINGS[:4]), "u": float(r.choice([1.0, 1.0, 0.5, 0.125, 0.0])), "Sym": 1 if r.random() < 0.15 else 0,
          "Equil": r.choice([0, 1, 1]), "Trans": r.choice([0, 1, 2]), "IterRefine": r.choice([0, 0, 1, 2]),
          "PivotGrowth": r.choice([0, 1]), "Cond": r.choice([0, 1])}
     o.update(over)
@@ -436,7 +467,7 @@ def history_scenario(g, sid, ty, hist, userwork=False):
 
 
 # ----------------------------------------------------------------------------- C18
-def screen_scenario(g, sid, ty, routine, corrupts, factored):
+def screen_scenario(g, sid, ty, routine, corrupts, mode):
     """an otherwise valid call of `routine` with the named single-argument corruptions"""
     r = g.r
     cplx = is_cplx(ty)
@@ -452,8 +483,12 @@ def screen_scenario(g, sid, ty, routine, corrupts, factored):
         lines += g.rhs_lines(B, n, 2, n + 1, cplx)
     if routine == "trsv":
         lines.append("vecx %d 1 " % n + " ".join((hx(1.0) + (" " + hx(0.0) if cplx else "")) for _ in range(n)))
-    if factored:
+    if mode is True:
+        mode = 3
+    if mode == 3:
         lines += ["seteq B"] + opt_lines({"Fact": 3})
+    elif mode in (1, 2):
+        lines += opt_lines({"Fact": mode})          # refactorization with the structures of the first call in place
     for c in corrupts:
         lines.append("corrupt " + c)
     arg = {"gstrs": " 0", "gsrfs": " 0", "gscon": " 1"}.get(routine, "")
@@ -609,13 +644,52 @@ def fam_cond(g, prop, count, types, nmax=7):
             fmt = r.choice(["NC", "NC", "NR"])
             if cplx and fmt == "NR" and o["Trans"] == 2:
                 o["Trans"] = 1
-            nrhs = r.choice([1, 2])
+            nrhs = r.choice([1, 1, 2, 0])                  # no right-hand side at all: factor, estimate, report
             B = g.rhs_for(A, n, nrhs, cplx, op=o["Trans"] if (cplx or o["Trans"] != 2) else 1)
-            if r.random() < 0.2:
+            if nrhs and r.random() < 0.2:
                 B[0] = [(0.0, 0.0)] * n                     # a zero column
             lines = ["tune " + " ".join(map(str, g.tune()))] + g.mat_lines(A, n, n, fmt, cplx) + g.rhs_lines(B, n, nrhs, n, cplx) + opt_lines(o)
             lines += gssvx_block(work=None, events=8) + ["destroy all", "ledger"]
             lst.append({"id": "%s-cond%s-%05d-%s" % (prop, kind, i, ty), "lines": lines, "n": n})
+        out[ty] = lst
+    return out
+
+
+def fam_slowrefine(g, prop, count, types):
+    """refinement that needs all five steps: a tiny leading diagonal entry accepted as pivot (DiagPivotThresh = 0, natural
+    ordering, no equilibration) makes the factorization inaccurate by a factor eps * 2^k; k is swept so that BERR is
+    halved five times without reaching eps"""
+    out = {}
+    for ty, cnt in split_types(count, types).items():
+        cplx = is_cplx(ty)
+        lst = []
+        for i in range(cnt):
+            r = g.r
+            n = r.randint(3, 8)
+            bits = 53 if ty in "dz" else 24
+            k = bits - r.randint(2, 12)
+            A = {}
+            for a in range(n):
+                for b in range(n):
+                    if a == b or r.random() < 0.6:
+                        v = r.uniform(0.5, 2.0) * r.choice([1, -1])
+                        A[(a, b)] = (v, r.uniform(-1, 1) if cplx else 0.0)
+            for a in range(r.choice([1, 1, 2])):
+                A[(a, a)] = (2.0 ** -k * r.uniform(1, 2), 0.0)
+            if ty in "sc":
+                A = {kk: (f32(v[0]), f32(v[1])) for kk, v in A.items()}
+            tr = r.choice([0, 1, 2])
+            fmt = r.choice(["NC", "NC", "NR"])
+            if cplx and fmt == "NR" and tr == 2:
+                tr = 1
+            o = {"default": 0, "ColPerm": NATURAL, "Equil": 0, "u": 0.0, "IterRefine": r.choice([1, 2, 2]), "Trans": tr, "Cond": r.choice([0, 1]), "PivotGrowth": r.choice([0, 1])}
+            nrhs = r.choice([1, 2])
+            B = [[(r.uniform(-1, 1), r.uniform(-1, 1) if cplx else 0.0) for _ in range(n)] for _ in range(nrhs)]
+            if ty in "sc":
+                B = [[(f32(v[0]), f32(v[1])) for v in col] for col in B]
+            lines = ["tune " + " ".join(map(str, g.tune()))] + g.mat_lines(A, n, n, fmt, cplx) + g.rhs_lines(B, n, nrhs, n, cplx) + opt_lines(o)
+            lines += gssvx_block(work=None, events=8) + ["destroy all", "ledger"]
+            lst.append({"id": "%s-slowrefine-%05d-%s" % (prop, i, ty), "lines": lines, "n": n})
         out[ty] = lst
     return out
 
@@ -783,7 +857,7 @@ def fam_ilu(g, prop, count, types, nmax=8):
             nodrop = r.random() < 0.3
             rule = 0 if nodrop else r.choice([DROP_BASIC, DROP_BASIC | DROP_AREA, DROP_BASIC | DROP_PROWS, DROP_BASIC | DROP_COLUMN, DROP_BASIC | DROP_SECONDARY,
                                               DROP_BASIC | DROP_AREA | DROP_DYNAMIC, DROP_BASIC | DROP_PROWS | DROP_INTERP, DROP_BASIC | DROP_AREA | DROP_INTERP, DROP_PROWS, DROP_AREA, DROP_COLUMN | DROP_DYNAMIC])
-            o = {"iludefault": 0, "ColPerm": r.choice([NATURAL, COLAMD, MMD_ATA, MMD_AT_PLUS_A]), "u": float(r.choice([1.0, 0.5, 0.125, 0.0625])),
+            o = {"iludefault": 0, "ColPerm": r.choice([NATURAL, COLAMD, MMD_ATA, MMD_AT_PLUS_A]), "u": float(r.choice([1.0, 0.5, 0.125, 0.0625, 0.0])),
                  "DropRule": rule, "DropTol": 0.0 if nodrop else float(r.choice([0.0, 2.0 ** -10, 2.0 ** -4, 0.5])), "FillFactor": float(r.choice([1.0, 2.0, 10.0])),
                  "Norm": r.choice([0, 1, 2]), "MILU": r.choice([0, 0, 1, 2, 3]), "FillTol": float(r.choice([2.0 ** -7, 0.01, 2.0 ** -20])),
                  "RowPerm": r.choice([0, 0, 1]), "Trans": r.choice([0, 1, 2]), "Equil": r.choice([0, 1]), "PivotGrowth": r.choice([0, 1]), "Cond": r.choice([0, 1])}
@@ -819,10 +893,26 @@ def fam_ldperm(g, prop, count, types, exhaustive3=False):
             if not P:
                 P = {(0, 0)}
             cases.append((n, P, "r"))
+        # nearly full patterns of order 4..8 with few distinct magnitudes: several rows of an unmatched column tie for the
+        # minimum reduced cost (the queue layout inside the shortest-path search depends on it); small integers likewise
+        for i in range(k // 2):
+            n = g.r.randint(4, 8)
+            dens = g.r.uniform(0.55, 1.0)
+            P = {(a, b) for a in range(n) for b in range(n) if g.r.random() < dens}
+            if g.r.random() < 0.8:
+                P = g.ensure_structurally_nonsingular(P, n)
+            if not P:
+                P = {(0, 0)}
+            cases.append((n, P, g.r.choice(["tie", "tie", "int"])))
         for i, (n, P, tag) in enumerate(cases):
             r = g.r
-            fl = r.random() < 0.2 and tag == "r"
-            span = r.choice([2, 6, 30])
+            fl = (r.random() < 0.2 and tag == "r") or tag == "int"
+            span = r.choice([2, 6, 30]) if tag not in ("tie", "int") else r.choice([1, 2, 3])
+            if tag == "int":
+                A = {kk: (float(r.choice([1, -1]) * r.randint(1, 3)), 0.0) for kk in P}
+                lines = g.mat_lines(A, n, n, "NC", cplx) + ["call ldperm 5", "destroy all", "ledger"]
+                lst.append({"id": "%s-ldpermint-%05d-%s" % (prop, i, ty), "lines": lines, "n": n})
+                continue
             A = {}
             for kk in P:
                 mag = 2.0 ** r.randint(-span, span) * (r.uniform(1, 1.99) if fl else 1.0)
@@ -854,8 +944,8 @@ def fam_readers(g, prop, count, types, outdir):
         lst = []
         for i in range(k):
             r = g.r
-            n = r.randint(1, 7)
             fmt = r.choice(["mm", "mm", "hb", "hb", "rb", "triple"] + (["triple_noheader"] if ty == "d" else []))
+            n = r.randint(1, 7) if (fmt not in ("hb", "rb") or r.random() < 0.6) else r.randint(10, 13)   # two-digit indices
             sym = fmt in ("mm", "hb", "rb") and r.random() < 0.5
             dens = r.uniform(0.2, 0.9)
             pos = [(a, b) for a in range(n) for b in range(n) if (a >= b or not sym) and r.random() < dens]
@@ -885,9 +975,10 @@ def fam_readers(g, prop, count, types, outdir):
                 digits = 8 if single else r.choice([16, 17])
                 if kind == "F":
                     digits = r.choice([6, 10])
-                vw = digits + r.choice([8, 9, 10]) if kind != "F" else digits + r.choice([9, 12])
+                # fields may be exactly as wide as their content (Fortran fixed-width input: no separating blank needed)
+                vw = digits + r.choice([7, 8, 9, 10]) if kind != "F" else digits + r.choice([9, 12])
                 vn = max(1, min(80 // vw, r.choice([1, 2, 3, 4])))
-                iw = r.choice([3, 4, 8]); pw = r.choice([3, 5, 8])
+                iw = r.choice([len(str(n)), 3, 4, 8]); pw = r.choice([len(str(len(rowind) + 1)), 3, 5, 8])
                 enc = {"pw": pw, "pn": max(1, min(80 // pw, r.choice([4, 10, 16]))), "iw": iw, "in": max(1, min(80 // iw, r.choice([5, 10, 20]))),
                        "vw": vw, "vn": vn, "vd": digits, "kind": kind, "scale": r.choice([None, None, 1]) if kind != "F" else None, "rhs": r.random() < 0.3}
                 if not iowrite.write_hb(path, n, colptr, rowind, flat, cplx, sym, enc, rb=(fmt == "rb")):
